@@ -47,7 +47,7 @@ def run_l1(prop, tier, chk, model, bres):
                                                      'body_length': L},
                          f'make_segments({cap}) raised {out} for a {L}-byte body')
         # ---- stream (b): StorageUnitLabel + DLISWriter with synthetic records
-        n_files = 250 if tier == 'quick' else 2500
+        n_files = 600 if tier == 'quick' else 4000
         freqs, fcases = [], []
         for i in range(n_files):
             if i < 40 or R.random() < 0.5:
